@@ -98,9 +98,9 @@ Go(s, i, V, PN, ps, ops) ==
                   res == Body(1, 1, ps \o hps, ops)
               IN IF it.hdr.t = "range" /\ it.hdr.hasc /\ it.hdr.c = 0 THEN Raise("other", "zerostep")
                  ELSE IF SeqBad(vs, 1) # None THEN SeqBad(vs, 1)
-                 ELSE IF Has(V, it.x) THEN Unspec
+                 ELSE IF Has(V, it.x) THEN U("BBDenote:101")
                  ELSE IF res.k # "ok" THEN res ELSE Go(s, i + 1, V, PN, res.ps, res.ops)
-         [] OTHER -> Unspec
+         [] OTHER -> U("BBDenote:103")
 Straight(s) ==
   LET tg == MetaOf(s.target) ty == MetaOf(s.type) IN
   IF tg.k # "ok" THEN tg ELSE IF ty.k # "ok" THEN ty
